@@ -326,6 +326,61 @@ def leaf(ctx):
     return None, None
 
 
+def arm_entry_targets(body, leaf_adt, variant):
+    """Targets of switch edges in `body` that establish `leaf_adt == variant`."""
+    out = []
+    for bb in sorted(body.live_blocks):
+        t = body.blocks[bb]["term"]
+        if t["k"] != "switch":
+            continue
+        l = op_local(t["discr"])
+        if l is None:
+            continue
+        d = A.local_def_desc(body, l)
+        if d[0] != "discr" or d[2] != leaf_adt:
+            continue
+        vmap = {v: n for v, n in d[3]}
+        listed = {v for v, _ in t["targets"]}
+        for v, tg in t["targets"]:
+            if vmap.get(v) == variant:
+                out.append((bb, tg))
+        rest = [n for v, n in vmap.items() if v not in listed]
+        if rest == [variant]:
+            out.append((bb, t["otherwise"]))
+    return out
+
+
+def check_mandatory(F, R, adt, ws, mandatory):
+    """Every path through the arm of `leaf variant` must perform one of the arm's mandatory counter writes."""
+    for (leaf_adt, var), names in mandatory.items():
+        sites = [w for w in ws if w.name in names]
+        bodies = {w.body.key: w.body for w in sites}
+        inst = f"every-path/{leaf_adt.rsplit('::', 1)[-1]}::{var}->{'|'.join(sorted(names))}"
+        if len(bodies) != 1:
+            R.violation(inst, None, f"writes of {sorted(names)} are spread over {len(bodies)} bodies")
+            continue
+        b = list(bodies.values())[0]
+        entries = arm_entry_targets(b, leaf_adt, var)
+        if not entries:
+            R.unverifiable(inst, f"no switch edge establishing {leaf_adt}::{var} in {b.short}")
+            continue
+        stops = {w.site.bb for w in sites if w.body is b}
+        bad = None
+        for sw, tg in entries:
+            seen, work = set(), [tg]
+            while work:
+                x = work.pop()
+                if x in seen or x in stops:
+                    continue
+                seen.add(x)
+                if b.blocks[x]["term"]["k"] == "return":
+                    bad = (sw, tg)
+                    break
+                work.extend(b.succ[x])
+        R.check(bad is None, inst, Site(b, entries[0][0], "T"), f"every path through the {var} arm updates {sorted(names)}",
+                f"a path through the {leaf_adt}::{var} arm returns without updating {sorted(names)} (such an event is not counted)")
+
+
 def check_counter_table(F, R, adt, table, counters):
     """C12.R1 / C14.R3: the observed set of (counter, op, leaf variant, retry polarity) must equal `table`;
     step-level counters must see Background+Step and Rule+Scenario routes; no extra condition on a write."""
@@ -358,7 +413,16 @@ def check_counter_table(F, R, adt, table, counters):
         extra = []
         for g in A.guards_of(w.body, w.site):
             d = g.cond_def()
-            if d is None or d[0] in ("discr", "multi"):
+            if d is None or d[0] == "multi":
+                continue
+            if d[0] == "discr":
+                # matching on event ADTs / the writer's state is what the table is about; any other match is an extra condition
+                if d[2].startswith("event::") or d[2] in ("std::result::Result", "writer::summarize::State", "std::option::Option") and _is_event_place(w.body, d[1]):
+                    continue
+                atom = f"discr({d[2]})"
+                if any(re.search(rx, atom) for rx in table[sig]):
+                    continue
+                extra.append(atom)
                 continue
             if rg and d[0] == "call" and callee_is(d[2], r"Option::<.*>::(is_some|is_none|is_some_and)$") and pol:
                 sl = A.slice_back(w.body, [d[2]["args"][0]])
@@ -377,3 +441,19 @@ def check_counter_table(F, R, adt, table, counters):
             R.violation(f"missing/{name}{op}@{ladt}::{lvar}" + (f"/{pol}" if pol else ""), root,
                         f"no write `{name}` {op} under {ladt}::{lvar}{' (' + pol + ')' if pol else ''}: those events are no longer counted")
     return root, bodies, ws
+
+
+def _is_event_place(body, pl):
+    """Does the matched place hold (part of) the incoming event / parser result — as opposed to writer-side bookkeeping?"""
+    cp = A.canon_place(body, pl)
+    ty = body.locals[cp["l"]]
+    if re.search(r"event::(Event|Cucumber|Feature|Rule|Scenario|RetryableScenario|Step|Hook)\b|parser::Error", ty):
+        return True
+    for e in cp["p"]:
+        if isinstance(e, dict) and e.get("o", "").startswith("event::"):
+            return True
+    # results of as_deref()/split() on the event
+    sd = body.single_def(cp["l"])
+    if sd and sd[1] == "call" and re.search(r"event::|parser::Error", body.locals[cp["l"]]):
+        return True
+    return False
